@@ -152,19 +152,21 @@ CLAIMS = {
         "directions, and that moving the other disk/sphere by the collision vector leaves the two exactly tangent on the same side."),
   design="§6 C16, §12"),
  "C17": dict(
-  technique="TLA+ spec (VekOps/VekOpsAlgo) model-checked by TLC exhaustively per bit width; TLC-emitted result tables replayed into the real code (spec->code conformance)",
+  technique="TLA+ spec (VekOpsCore/VekOps/VekOpsAlgo) model-checked by TLC exhaustively per bit width; TLC-emitted result tables replayed into the real code (spec->code conformance); the scaling laws that lift the 8-bit tables to the wide types proved for all integers with TLAPS (spec/Proof_Ops.tla); float/angle forms recorded from the code and validated by TLC (Trace_Ops)",
   text=("TLC checks exhaustively (every (x,lo,hi) of 5-bit types in quick, 8-bit in thorough) that the declarative operators satisfy the range laws of the "
         "statement and that the implementation-shaped algorithm models compute them without leaving the machine type; TLC then prints the declarative result "
         "for every value of i8/u8 per bound pair and the harness runs vek on every entry (all 20 integer/Wrapping types via scaled copies, all 13 vector types, "
-        "scalar- and vector-bound forms, all API aliases). Thorough enumerates all 2^24 triples per ternary function and signedness."),
+        "scalar- and vector-bound forms, all API aliases); replaying a table on a wide type with operands scaled by 2^(bits-8) is justified by the scaling laws "
+        "of the operators, which the TLA+ proof system proves for all integers (524 obligations). Thorough enumerates all 2^24 triples per ternary function and signedness."),
   design="§6 C17"),
 
  "C18": dict(
-  technique="TLA+ ownership machine (VekIter) model-checked by TLC for every dimension; every transition of TLC's state graph replayed on IntoIter<Tracked>; conversion traces validated by TLC against the VekOwn ledger",
+  technique="TLA+ ownership machine (VekIter) model-checked by TLC for every dimension; every transition of TLC's state graph replayed on IntoIter<Tracked>; the two-iterator machine (VekIterPair) explored by TLC and every state pair replayed as a comparison of two real iterators; conversion traces validated by TLC against the VekOwn ledger",
   text=("TLC builds the complete state graph of the consuming-iterator machine for each dimension 2,3,4,8,16,32,64 and checks the ownership invariants "
         "(live = cursor window, no read of a moved element, length reports, no leak, exactly-once) on it; behaviours covering every transition of every graph are replayed "
         "on the real IntoIter of every vector type with an ownership-tracking element (returned element, len/size_hint, elements read by Debug/PartialEq/Hash, elements destroyed, "
-        "exactly-once overall). Conversions (arrays, nested arrays, tuples, slices, FromIterator short/exact/long, matrix row/col arrays in both layouts) are recorded from the code "
+        "exactly-once overall); pairs of cursor states of two iterators (all pairs up to dimension 8, a band around the diagonal above) are compared with ==/!= on the real "
+        "iterators: result = equality of the remaining sequences, only live elements read. Conversions (arrays, nested arrays, tuples, slices, FromIterator short/exact/long, matrix row/col arrays in both layouts) are recorded from the code "
         "and validated by TLC against the ledger specification."),
   design="§6 C18"),
  "C20": dict(
